@@ -7,6 +7,12 @@
 //!   (14 5 ty (x ..))            softmax   -> list
 //!   (14 6 ty p r)               f1_score  -> value
 //!   (14 7 ((m e) ..))           float oracle: softmax over f64 values m * 10^e -> four 0/1 flags
+//! FLOAT tier (fty 0 = f64, 1 = f32; numbers (m e) = the decimal m * 10^e rounded to the type):
+//!   (14 8 fty (x ..))           mean + variance, non-empty -> (mean-ok variance-ok forms-agree)
+//!   (14 9 fty rows)             covariance, all routes -> (values-ok symmetric diagonal-is-variance routes-agree)
+//!   (14 10 fty p r)             f1_score -> (value-ok)
+//!   (14 11 fty (x ..))          softmax -> (length finite-nonneg sums-to-one order closed-form)
+//! The references are the population formulas evaluated EXACTLY (big integers) on the rounded inputs.
 //! Every input form that must agree is exercised and cross-checked here (`inconsistent(code)`).
 use crate::guarded;
 use crate::num::{dec_list, enc_list, Enc};
@@ -53,6 +59,14 @@ pub fn run(args: &[Sx]) -> Sx {
     if args[0].i64() == Some(7) && args.len() == 2 {
         return float_oracle(&args[1]);
     }
+    if let (Some(op @ 8..=11), Some(fty)) = (args[0].i64(), args[1].i64()) {
+        // FLOAT tier (fty 0 = f64, 1 = f32): see `float_tier` at the end of this file
+        return match fty {
+            0 => float_tier::<f64>(op, &args[2..]),
+            1 => float_tier::<f32>(op, &args[2..]),
+            _ => bad_case(),
+        };
+    }
     let (Some(op), Some(ty)) = (args[0].i64(), args[1].i64()) else { return bad_case() };
     with_ty!(ty, go(op, &args[2..]))
 }
@@ -79,7 +93,8 @@ fn float_oracle(xs: &Sx) -> Sx {
     let len_ok = out.len() == data.len();
     let nonneg = out.iter().all(|y| y.is_finite() && *y >= 0.0);
     let sum: f64 = out.iter().sum();
-    let sums = if data.is_empty() { out.is_empty() } else { (sum - 1.0).abs() < 1e-9 };
+    // summing N <= ~1000 outputs each within a few units in the last place: 1e-12 is ample
+    let sums = if data.is_empty() { out.is_empty() } else { (sum - 1.0).abs() < 1e-12 };
     let mut order = len_ok;
     if len_ok {
         for i in 0..data.len() {
@@ -456,4 +471,290 @@ where
             None => panicked(),
         },
     ])
+}
+
+// ------------------------------------------------------------------------------------------
+// FLOAT tier.  Over the exact field types every algebraically equivalent rearrangement gives the
+// same value (E[x^2] - E[x]^2 IS the variance there); on floats the two-pass code of the crate is
+// accurate for data with a large common offset and a one-pass "optimisation" is not.  The
+// references are the population formulas evaluated exactly in big-integer arithmetic on the
+// rounded inputs; budgets are stated in units of the type's unit roundoff U.
+// ------------------------------------------------------------------------------------------
+use num_bigint::BigInt;
+use num_traits::{Signed, ToPrimitive, Zero};
+
+trait Fl: Real + Copy + PartialEq + PartialOrd + std::fmt::Debug + std::panic::RefUnwindSafe {
+    const U: f64;
+    const TINY: f64;
+    fn parse(m: i64, e: i64) -> Option<Self>;
+    fn f(self) -> f64;
+    fn bits(self) -> u64;
+}
+impl Fl for f64 {
+    const U: f64 = 1.1102230246251565e-16;
+    const TINY: f64 = 1e-300;
+    fn parse(m: i64, e: i64) -> Option<f64> {
+        format!("{}e{}", m, e).parse::<f64>().ok().filter(|v| v.is_finite())
+    }
+    fn f(self) -> f64 {
+        self
+    }
+    fn bits(self) -> u64 {
+        self.to_bits()
+    }
+}
+impl Fl for f32 {
+    const U: f64 = 5.960464477539063e-8;
+    const TINY: f64 = 1e-36;
+    fn parse(m: i64, e: i64) -> Option<f32> {
+        format!("{}e{}", m, e).parse::<f32>().ok().filter(|v| v.is_finite())
+    }
+    fn f(self) -> f64 {
+        self as f64
+    }
+    fn bits(self) -> u64 {
+        self.to_bits() as u64
+    }
+}
+fn dec_me<T: Fl>(s: &Sx) -> Option<T> {
+    let p = s.list()?;
+    if p.len() != 2 {
+        return None;
+    }
+    T::parse(p[0].i64()?, p[1].i64()?)
+}
+fn dec_me_list<T: Fl>(s: &Sx) -> Option<Vec<T>> {
+    s.list()?.iter().map(dec_me::<T>).collect()
+}
+/// same bits, or both zero
+fn same<T: Fl>(a: T, b: T) -> bool {
+    a.bits() == b.bits() || (a.f() == 0.0 && b.f() == 0.0)
+}
+fn close(got: f64, want: f64, budget: f64) -> bool {
+    if want.is_nan() {
+        return got.is_nan();
+    }
+    if want.is_infinite() {
+        return got == want;
+    }
+    (got - want).abs() <= budget
+}
+
+/// a finite f64 as (mantissa, exponent): v = mantissa * 2^exponent exactly
+fn decompose(v: f64) -> (BigInt, i64) {
+    let bits = v.to_bits();
+    let sign = if bits >> 63 == 1 { -1 } else { 1 };
+    let e = ((bits >> 52) & 0x7ff) as i64;
+    let frac = bits & ((1u64 << 52) - 1);
+    let (m, e) = if e == 0 { (frac, -1074) } else { (frac | (1u64 << 52), e - 1075) };
+    (BigInt::from(m) * sign, e)
+}
+/// the data as integers over one common power of two: x_i = X_i * 2^e
+fn common(xs: &[f64]) -> (Vec<BigInt>, i64) {
+    let parts: Vec<(BigInt, i64)> = xs.iter().map(|x| decompose(*x)).collect();
+    let e = parts.iter().map(|p| p.1).min().unwrap_or(0);
+    (parts.into_iter().map(|(m, pe)| m << ((pe - e) as usize)).collect(), e)
+}
+/// num / den * 2^exp2 rounded to f64 (about 80 bits of the quotient are kept)
+fn ratio(num: &BigInt, den: &BigInt, exp2: i64) -> f64 {
+    if num.is_zero() {
+        return 0.0;
+    }
+    let shift = 80 + den.bits() as i64 - num.bits() as i64;
+    let q = if shift >= 0 { (num << (shift as usize)) / den } else { num / (den << ((-shift) as usize)) };
+    let mut v = q.to_f64().unwrap_or(f64::NAN);
+    let mut e = exp2 - shift;
+    while e != 0 {
+        let step = e.clamp(-900, 900);
+        v *= 2f64.powi(step as i32);
+        e -= step;
+    }
+    v
+}
+/// exact population mean and (co)variance of two equally long columns given over common exponents
+fn exact_mean(xs: &[BigInt], e: i64) -> f64 {
+    let s: BigInt = xs.iter().sum();
+    ratio(&s, &BigInt::from(xs.len()), e)
+}
+fn exact_cov(xs: &[BigInt], ex: i64, ys: &[BigInt], ey: i64) -> f64 {
+    let n = BigInt::from(xs.len());
+    let sx: BigInt = xs.iter().sum();
+    let sy: BigInt = ys.iter().sum();
+    let sxy: BigInt = xs.iter().zip(ys).map(|(a, b)| a * b).sum();
+    ratio(&(&n * sxy - sx * sy), &(&n * &n), ex + ey)
+}
+/// budget of the mean: naive summation of N numbers then one division
+fn mean_budget<T: Fl>(xs: &[f64]) -> f64 {
+    let n = xs.len() as f64;
+    2.0 * (n + 2.0) * T::U * (xs.iter().map(|x| x.abs()).sum::<f64>() / n) + f64::MIN_POSITIVE
+}
+/// budget of a population covariance computed in two passes: the rounding of the N products and
+/// their sum relative to sum |dx||dy| / N, plus the product of the two means' own errors (the
+/// first-order terms cancel because the deviations sum to zero)
+fn cov_budget<T: Fl>(xs: &[f64], ys: &[f64]) -> f64 {
+    let n = xs.len() as f64;
+    let (mx, my) = (xs.iter().sum::<f64>() / n, ys.iter().sum::<f64>() / n);
+    let s = xs.iter().zip(ys).map(|(x, y)| ((x - mx) * (y - my)).abs()).sum::<f64>() / n;
+    2.0 * (n + 8.0) * T::U * s + 2.0 * mean_budget::<T>(xs) * mean_budget::<T>(ys) + f64::MIN_POSITIVE
+}
+
+fn float_tier<T>(op: i64, args: &[Sx]) -> Sx
+where
+    T: Fl,
+    for<'a> &'a T: RealRef<T>,
+{
+    match (op, args.len()) {
+        (8, 1) => {
+            let Some(data) = dec_me_list::<T>(&args[0]) else { return bad_case() };
+            if data.is_empty() {
+                return bad_case();
+            }
+            let xs: Vec<f64> = data.iter().map(|x| x.f()).collect();
+            let (ints, e) = common(&xs);
+            let mean = linear_algebra::mean::<_, T>(data.iter().cloned());
+            let var = linear_algebra::variance::<_, T>(data.iter().cloned());
+            let mean_ok = close(mean.f(), exact_mean(&ints, e), mean_budget::<T>(&xs));
+            let var_ok = var.f() >= 0.0 && close(var.f(), exact_cov(&ints, e, &ints, e), cov_budget::<T>(&xs, &xs));
+            // other iterator shapes: the same bits
+            let n = data.len();
+            let forms = same(linear_algebra::mean::<_, T>(data.clone().into_iter().filter(|_| true)), mean)
+                && same(linear_algebra::variance::<_, T>(Hinted { it: data.iter().cloned(), hint: Some((n + 1, Some(n + 1))) }), var)
+                && same(linear_algebra::variance::<_, T>(Tensor::from([(dim(3), n)], data.clone()).iter()), var)
+                && same(linear_algebra::mean::<_, T>(Matrix::column(data.clone()).column_iter(0)), mean);
+            l(vec![boolean(mean_ok), boolean(var_ok), boolean(forms)])
+        }
+        (9, 1) => {
+            let Some(rows) = args[0].list() else { return bad_case() };
+            let Some(rows) = rows.iter().map(dec_me_list::<T>).collect::<Option<Vec<Vec<T>>>>() else {
+                return bad_case();
+            };
+            if rows.is_empty() || rows[0].is_empty() || rows.iter().any(|r| r.len() != rows[0].len()) {
+                return bad_case();
+            }
+            float_cov::<T>(rows)
+        }
+        (10, 2) => {
+            let (Some(p), Some(r)) = (dec_me::<T>(&args[0]), dec_me::<T>(&args[1])) else { return bad_case() };
+            let got = linear_algebra::f1_score::<T>(p, r);
+            // 2 p r / (p + r) over the reals; at p = r = 0 the harmonic mean has no value and the
+            // code's 2 * (0 / 0) is NaN on IEEE floats (documented in notes/C14_C17.md)
+            let (pf, rf) = (p.f(), r.f());
+            let want = 2.0 * pf * rf / (pf + rf);
+            l(vec![boolean(close(got.f(), want, 8.0 * T::U * want.abs() + f64::MIN_POSITIVE))])
+        }
+        (11, 1) => {
+            let Some(data) = dec_me_list::<T>(&args[0]) else { return bad_case() };
+            float_softmax::<T>(data)
+        }
+        _ => bad_case(),
+    }
+}
+
+/// op 9: `rows` is the data matrix.  Row features, column features (each also through the other
+/// entry point on the transposed matrix) and the tensor route.
+fn float_cov<T>(rows: Vec<Vec<T>>) -> Sx
+where
+    T: Fl,
+    for<'a> &'a T: RealRef<T>,
+{
+    let (r, c) = (rows.len(), rows[0].len());
+    let matrix = Matrix::from(rows.clone());
+    let transposed = matrix.transpose();
+    let flat: Vec<T> = rows.iter().flatten().cloned().collect();
+    let tensor = Tensor::from([(dim(0), r), (dim(1), c)], flat);
+    let (mut values, mut symmetric, mut diagonal, mut routes) = (true, true, true, true);
+    // (result, features as lists of samples)
+    let by_rows: Vec<Vec<T>> = rows.clone();
+    let by_cols: Vec<Vec<T>> = (0..c).map(|j| (0..r).map(|i| rows[i][j]).collect()).collect();
+    for (features, result, other, named) in [
+        (
+            &by_rows,
+            linear_algebra::covariance_row_features::<T>(&matrix),
+            linear_algebra::covariance_column_features::<T>(&transposed),
+            linear_algebra::covariance::<T, _, _>(&tensor, dim(0)),
+        ),
+        (
+            &by_cols,
+            linear_algebra::covariance_column_features::<T>(&matrix),
+            linear_algebra::covariance_row_features::<T>(&transposed),
+            linear_algebra::covariance::<T, _, _>(&tensor, dim(1)),
+        ),
+    ] {
+        let n = features.len();
+        if result.size() != (n, n) || other.size() != (n, n) || named.shape().map(|d| d.1) != [n, n] {
+            return inconsistent(901);
+        }
+        let named_data: Vec<T> = named.iter().collect();
+        let fs: Vec<Vec<f64>> = features.iter().map(|f| f.iter().map(|x| x.f()).collect()).collect();
+        let ints: Vec<(Vec<BigInt>, i64)> = fs.iter().map(|f| common(f)).collect();
+        for i in 0..n {
+            for j in 0..n {
+                let got = result.get(i, j);
+                let want = exact_cov(&ints[i].0, ints[i].1, &ints[j].0, ints[j].1);
+                if !close(got.f(), want, cov_budget::<T>(&fs[i], &fs[j])) {
+                    values = false;
+                }
+                if !same(got, result.get(j, i)) {
+                    symmetric = false;
+                }
+                if !same(got, other.get(i, j)) || !same(got, named_data[i * n + j]) {
+                    routes = false;
+                }
+            }
+            // the diagonal is computed by the same operations in the same order as `variance`
+            let v = linear_algebra::variance::<_, T>(features[i].iter().cloned());
+            if !same(result.get(i, i), v) || !(result.get(i, i).f() >= 0.0) {
+                diagonal = false;
+            }
+        }
+    }
+    l(vec![boolean(values), boolean(symmetric), boolean(diagonal), boolean(routes)])
+}
+
+/// op 11: softmax on floats against exp(x_i - max) / sum_j exp(x_j - max) evaluated in f64.
+fn float_softmax<T>(data: Vec<T>) -> Sx
+where
+    T: Fl,
+    for<'a> &'a T: RealRef<T>,
+{
+    let out = linear_algebra::softmax::<_, T>(data.iter().cloned());
+    let n = data.len();
+    if out.len() != n {
+        return l(vec![z(0), z(0), z(0), z(0), z(0)]);
+    }
+    if n == 0 {
+        return l(vec![z(1), z(1), z(1), z(1), z(1)]);
+    }
+    let xs: Vec<f64> = data.iter().map(|x| x.f()).collect();
+    let mx = xs.iter().cloned().fold(f64::NEG_INFINITY, f64::max);
+    let ys: Vec<f64> = xs.iter().map(|x| x - mx).collect();
+    let denominator: f64 = ys.iter().map(|y| y.exp()).sum();
+    let nonneg = out.iter().all(|y| y.f().is_finite() && y.f() >= 0.0 && y.f() <= 1.0);
+    let sum: f64 = out.iter().map(|y| y.f()).sum();
+    let sums = (sum - 1.0).abs() <= 4.0 * (n as f64 + 2.0) * T::U;
+    let mut order = true;
+    for i in 0..n {
+        for j in 0..n {
+            if data[i] < data[j] && !(out[i] <= out[j]) {
+                order = false;
+            }
+            if data[i] == data[j] && out[i].bits() != out[j].bits() {
+                order = false;
+            }
+        }
+    }
+    let mut closed = true;
+    for i in 0..n {
+        let want = ys[i].exp() / denominator;
+        // exp amplifies the rounding of x_i - max by |y_i| (only |y_i| < ~750 matters: beyond, both are 0)
+        let amplification = ys[i].abs().min(800.0);
+        if want < T::TINY {
+            if !(out[i].f() <= 2.0 * T::TINY) {
+                closed = false;
+            }
+        } else if !close(out[i].f(), want, 4.0 * (amplification + n as f64 + 4.0) * T::U * want) {
+            closed = false;
+        }
+    }
+    l(vec![z(1), boolean(nonneg), boolean(sums), boolean(order), boolean(closed)])
 }
